@@ -8,4 +8,6 @@ TMPOUT="$(mktemp -d)"
 trap 'rm -rf "$TMPOUT"' EXIT
 "$VERIF/bin/wucheck" -prop "$ID" -tier thorough -repo "$REPO" -verif "$VERIF" -out "$TMPOUT" -goarch 386 > "$TMPOUT/386.log" 2>&1
 RC386=$?
-"$VERIF/bin/wucheck" -prop "$ID" -tier thorough -repo "$REPO" -verif "$VERIF" -out "$OUT" -also "386:$RC386:$TMPOUT/386.log"
+# liveness self-test of the rules serving this property (informational; scratch copies under /tmp, removed afterwards)
+python3 "$VERIF/tools/selftest.py" --prop "$ID" --json "$TMPOUT/liveness.json" -j 8 > "$TMPOUT/liveness.log" 2>&1 || true
+"$VERIF/bin/wucheck" -prop "$ID" -tier thorough -repo "$REPO" -verif "$VERIF" -out "$OUT" -also "386:$RC386:$TMPOUT/386.log" -embed "liveness:$TMPOUT/liveness.json"
